@@ -170,6 +170,21 @@ def guard_by_worlds(prog, f, is_site):
                 if args[0][2] == "None":
                     return ("int", 1)
                 return ev._call_closure(args[1], [args[0][3][0]])
+            if name in ("map", "and_then") and len(args) == 2 and args[0][0] == "variant" and args[0][1] == "Option":
+                # Option::map / and_then over the looked-up record (`.map(|existing| existing.state)`)
+                if args[0][2] == "None":
+                    return ("variant", "Option", "None", ())
+                r = ev._call_closure(args[1], [args[0][3][0]])
+                if name == "and_then":
+                    return r
+                return ("variant", "Option", "Some", (r,)) if r is not None else None
+            if name in ("eq", "ne") and len(args) == 2 and all(a[0] == "variant" for a in args):
+                # structural comparison of two fully known enum values (`existing_state != Some(GroupState::Active)`)
+                def known(v):
+                    return v[0] == "variant" and all(known(x) for x in v[3]) if v[0] == "variant" else False
+                if known(args[0]) and known(args[1]):
+                    same = args[0] == args[1]
+                    return ("int", int(same if name == "eq" else not same))
             if name == "is_some" and args and args[0][0] == "variant" and args[0][1] == "Option":
                 return ("int", int(args[0][2] == "Some"))
             if name == "is_none" and args and args[0][0] == "variant" and args[0][1] == "Option":
@@ -435,18 +450,34 @@ def _src_key(pw, o):
     """where process_welcome takes a value from: the named fields of the place it copies (`….nostr_group_data.name`) or the parameter"""
     if not isinstance(o, dict) or "p" not in o:
         return None
-    fl = tuple(e[1:] for e in o["p"][1:] if isinstance(e, str) and e.startswith(".") and not e[1:].isdigit())
+    # (only the last named field: `welcome_preview.nostr_group_data.relays` and, after destructuring, `nostr_group_data.relays` are the
+    # same source)
+    fl = tuple(e[1:] for e in o["p"][1:] if isinstance(e, str) and e.startswith(".") and not e[1:].isdigit())[-1:]
     if fl:
         return fl
-    keys = set()
-    for x in A.copy_sources(pw, o["p"][0]):
-        if isinstance(x, tuple):
-            fl = tuple(e[1:] for e in x[1:] if isinstance(e, str) and e.startswith(".") and not e[1:].isdigit())
+    # walk the copy chain backwards; the first named field met is the source (`relays` of a `nostr_group_data` that was itself moved
+    # out of the preview is still `relays`)
+    todo, seen = [o["p"][0]], set()
+    while todo:
+        l = todo.pop(0)
+        if l in seen:
+            continue
+        seen.add(l)
+        if 1 <= l <= pw.nargs:
+            return ("param", pw.local_name(l) or str(l))
+        for bb, kind, d in pw.defs().get(l, []):
+            src = None
+            if kind == "stmt" and d.get("k") in ("use", "ref", "cast") and len(d["d"]) == 1 and d["o"] and "p" in d["o"][0]:
+                src = d["o"][0]["p"]
+            elif kind == "call" and d.name in ("clone", "deref", "borrow", "as_ref", "into", "from", "to_owned", "as_slice", "branch", "map_err", "unwrap_or_default") and d.args and "p" in d.args[0]:
+                src = d.args[0]["p"]
+            if src is None:
+                continue
+            fl = tuple(e[1:] for e in src[1:] if isinstance(e, str) and e.startswith(".") and not e[1:].isdigit())[-1:]
             if fl:
-                keys.add(fl)
-        elif isinstance(x, int) and 1 <= x <= pw.nargs:
-            keys.add(("param", pw.local_name(x) or str(x)))
-    return sorted(keys)[0] if len(keys) == 1 else None
+                return fl
+            todo.append(src[0])
+    return None
 
 
 def _arg_sources(pw, c):
